@@ -52,6 +52,7 @@ Del(f, fk)      == [x \in DOMAIN f \ {fk} |-> f[x]]
 DelPrefix(f, p) == [x \in {y \in DOMAIN f : ~HasPrefix(y, p)} |-> f[x]]
 
 Tup(q) == IF Len(q) = 0 THEN <<>> ELSE q
+NoVals(L) == Tup([i \in 1..Len(L) |-> [k |-> L[i].k, v |-> <<>>]])
 (* what an iteration of view-realm r with prefix p in direction d delivers, realm stripped *)
 Listing(f, r, p, d) ==
   LET M   == {fk \in DOMAIN f : HasPrefix(fk, r \o p)}
@@ -129,7 +130,7 @@ Do(s) ==
     [] s.op = "IterateKeys" ->
          IF closed THEN Fail(s, [err |-> "ErrStoreClosed", keys |-> <<>>])
          ELSE Fail(s, [err |-> "ok", keys |-> KeysOf(Take(Listing(store, R(s), s.k, s.dir), s.n))])
-    [] s.op = "IterMut" ->             \* Iterate(prefix k) of view v whose consumer, at its FIRST entry, writes through view mv:
+    [] s.op = "IterMut" ->             \* Iterate (keys = FALSE) or IterateKeys (keys = TRUE, values reported as <<>>) with prefix k of view v whose consumer, at its FIRST entry, writes through view mv:
          \* Set(mk, val) or Delete(mk). The iteration delivers the entries the map held when the call began (a snapshot:
          \* what the consumer does to the store meanwhile neither adds, drops nor changes a delivered entry), the nested write
          \* takes effect like any other write.
@@ -141,7 +142,7 @@ Do(s) ==
                   ELSE /\ Cardinality(DOMAIN new) <= MaxLive
                        /\ UNCHANGED <<cfg, closed, batches>>
                        /\ store' = new
-                       /\ Out(s, [err |-> "ok", kv |-> L, inner |-> "ok"])
+                       /\ Out(s, [err |-> "ok", kv |-> IF s.keys THEN NoVals(L) ELSE L, inner |-> "ok"])
     [] s.op = "Realm" -> Fail(s, [err |-> "ok", realm |-> R(s)])
     [] s.op = "WithRealm" ->           \* a new handle for view s.to, made from view s.v
          IF closed THEN Fail(s, [err |-> "ErrStoreClosed", realm |-> <<>>])
@@ -184,14 +185,15 @@ Do(s) ==
                  /\ batches' = [batches EXCEPT ![s.b] = FreeSlot]
                  /\ Out(s, Err("ok"))
 
+ShortKeys == {k \in Keys : Len(k) <= 1}     \* prefixes and written keys of IterMut (keeps the stimulus set small; nested views supply longer full keys)
 AllStimuli ==
        [op : {"Get"}, v : RealmIds, k : Keys, mut : Muts]
   \cup [op : {"Has", "Delete", "DeletePrefix"}, v : RealmIds, k : Keys]
   \cup [op : {"Set"}, v : RealmIds, k : Keys, val : Vals, mut : Muts]
   \cup [op : {"Clear", "Flush", "Close", "Realm", "Batched"}, v : RealmIds]
   \cup [op : {"Iterate", "IterateKeys"}, v : RealmIds, k : Keys, dir : {"fwd", "bwd"}, n : Stops]
-  \cup [op : {"IterMut"}, v : RealmIds, k : Keys, dir : {"fwd", "bwd"}, mv : RealmIds, mk : Keys, del : {TRUE}, val : {<<>>}]
-  \cup [op : {"IterMut"}, v : RealmIds, k : Keys, dir : {"fwd", "bwd"}, mv : RealmIds, mk : Keys, del : {FALSE}, val : {AllVals[NVals]}]
+  \cup [op : {"IterMut"}, keys : BOOLEAN, v : RealmIds, k : ShortKeys, dir : {"fwd", "bwd"}, mv : RealmIds, mk : ShortKeys, del : {TRUE}, val : {<<>>}]
+  \cup [op : {"IterMut"}, keys : BOOLEAN, v : RealmIds, k : ShortKeys, dir : {"fwd", "bwd"}, mv : RealmIds, mk : ShortKeys, del : {FALSE}, val : {AllVals[NVals]}]
   \cup [op : {"WithRealm", "WithExtendedRealm"}, v : RealmIds, to : RealmIds]
   \cup [op : {"BSet"}, b : 1..MaxBatches, k : Keys, val : Vals]
   \cup [op : {"BDelete"}, b : 1..MaxBatches, k : Keys]
@@ -272,7 +274,7 @@ DeleteExactA == (ev'.op \in {"DeletePrefix", "Clear"} /\ ~closed) =>
                   /\ \A fk \in DOMAIN store' : store'[fk] = store[fk]
 \* an iteration whose consumer writes: the delivered entries are those of the map BEFORE the call, the only key touched is the consumer's
 IterMutA == (ev'.op = "IterMut" /\ ~closed) =>
-              /\ ev'.res.kv = Listing(store, RealmOf[ev'.v], ev'.k, ev'.dir)
+              /\ ev'.res.kv = (IF ev'.keys THEN NoVals(Listing(store, RealmOf[ev'.v], ev'.k, ev'.dir)) ELSE Listing(store, RealmOf[ev'.v], ev'.k, ev'.dir))
               /\ Touched \subseteq {RealmOfEv \o ev'.mk}
               /\ (ev'.res.kv = <<>>) = (ev'.res.inner = "none")
 SetDeleteA == /\ (ev'.op = "Set" /\ ~closed) => Touched \subseteq {RealmOfEv \o ev'.k}
@@ -293,7 +295,7 @@ Isolation    == [][IsolationA]_vars
 ReadOnly     == [][ReadOnlyA]_vars
 DeleteExact  == [][DeleteExactA]_vars
 SetDelete    == [][SetDeleteA]_vars
-IterSnapshot == [][IterMutA]_vars
+IterMutSnapshot == [][IterMutA]_vars
 BatchLastOp  == [][BatchLastOpA]_vars
 CancelNothing == [][CancelA]_vars
 =======================================================================
